@@ -47,10 +47,19 @@ def generate(ctx):
             g2 = cfglib.rand_cfg(rng, names=names, max_vars=2, max_prods=4, max_body=2)
             c["g2"] = g2
             c["ter"] = rng.choice(g["terms"])
-            if rng.random() < 0.4 and len(g["terms"]) > 1:
-                c["g3"] = cfglib.rand_cfg(rng, names=names, max_vars=2, max_prods=3, max_body=2)
+            if rng.random() < 0.6 and len(g["terms"]) > 1:
+                g3 = cfglib.rand_cfg(rng, names=names, max_vars=2, max_prods=3, max_body=2)
                 c["ter3"] = [t for t in g["terms"] if t != c["ter"]][0]
-                c["chained"] = rng.random() < 0.5       # two successive substitute calls (the second one on a grammar that already has #SUBS# names)
+                c["chained"] = rng.random() < 0.35      # two successive substitute calls (the second one on a grammar that already has #SUBS# names)
+                if rng.random() < 0.6:
+                    # simultaneous substitution: the grammar of the later entry uses the terminal that the earlier entry replaces
+                    # (and the earlier one the terminal of the later entry); these occurrences must stay terminals
+                    g3 = cfglib.normalise(dict(g3, terms=g3["terms"] + [t for t in (c["ter"],) if cfglib.vkey(t) not in set(map(cfglib.vkey, g3["terms"]))],
+                                               prods=g3["prods"] + [[g3["start"], [["T", c["ter"]]] + ([["T", g3["terms"][0]]] if rng.random() < 0.5 else [])]]))
+                    if rng.random() < 0.5:
+                        c["g2"] = cfglib.normalise(dict(g2, terms=g2["terms"] + [t for t in (c["ter3"],) if cfglib.vkey(t) not in set(map(cfglib.vkey, g2["terms"]))],
+                                                        prods=g2["prods"] + [[g2["start"], [["T", c["ter3"]]]]]))
+                c["g3"] = g3
         cases.append(c)
     return cases
 
